@@ -111,7 +111,51 @@ def guard_exempt(func, sub):
     return exempt
 
 
+def identifiers_case_kept(ctx, rule):
+    """names read from the file (component, atom, chain and residue identifiers, insertion and altloc codes) are case-sensitive keys:
+    only enumerated keywords (bond order, aromatic flag, connection type) may be case-folded.  For every case-folding call of the
+    converter the columns its operand is read from are collected (through zip-loop targets and plain assignments)"""
+    import re as _re
+    src = ctx.src(CONV)
+    ident = _re.compile(r"(comp_id|atom_id|asym_id|seq_id|ins_code|alt_id|entity_id|atom_name|res_name|type_symbol|chain_id|PDB_ins_code)")
+    n = 0
+    for q, f in src.funcs.items():
+        if "." in q:
+            continue
+        cols_of = {}
+        for st in ast.walk(f):
+            if isinstance(st, ast.For) and isinstance(st.iter, ast.Call) and call_name(st.iter) == "zip" and isinstance(st.target, ast.Tuple) \
+                    and len(st.target.elts) == len(st.iter.args):
+                for t_, a_ in zip(st.target.elts, st.iter.args):
+                    if isinstance(t_, ast.Name):
+                        cols_of.setdefault(t_.id, set()).update(x.value for x in ast.walk(a_) if isinstance(x, ast.Constant) and isinstance(x.value, str))
+            elif isinstance(st, ast.Assign) and len(st.targets) == 1 and isinstance(st.targets[0], ast.Name):
+                cols_of.setdefault(st.targets[0].id, set()).update(x.value for x in ast.walk(st.value) if isinstance(x, ast.Constant) and isinstance(x.value, str))
+        for c_ in ast.walk(f):
+            if not isinstance(c_, ast.Call):
+                continue
+            cn_ = call_name(c_) or ""
+            operand = None
+            if isinstance(c_.func, ast.Attribute) and c_.func.attr in ("upper", "lower", "casefold", "capitalize", "swapcase", "title") and not c_.args:
+                operand = c_.func.value
+            elif cn_.split(".")[-1] in ("upper", "lower", "capitalize", "swapcase", "title") and ".char." in "." + cn_ and c_.args:
+                operand = c_.args[0]
+            if operand is None:
+                continue
+            cols = {x.value for x in ast.walk(operand) if isinstance(x, ast.Constant) and isinstance(x.value, str)}
+            for x in ast.walk(operand):
+                if isinstance(x, ast.Name):
+                    cols |= cols_of.get(x.id, set())
+            bad = sorted(c for c in cols if ident.search(c))
+            n += 1
+            ctx.ob(rule, CONV, q, c_, not bad,
+                   f"the column(s) {bad} hold identifiers that are compared as they are written (`Lig`, `sol`, atom `Ca` vs `CA`): changing "
+                   "their case here loses the match with the names of the structure", c_.lineno)
+    ctx.floor("case-folding-sites", n, 1)
+
+
 def run(ctx):
+    identifiers_case_kept(ctx, "R8.identifiers-case-kept")
     # residues are what the altloc policies choose within and what separates intra- from inter-residue bonds
     from .C17 import residue_definition_rule
     residue_definition_rule(ctx, "R4.residue-definition")
